@@ -143,6 +143,7 @@ def run(ctx, P):
         names = list(hx.indicators)
         if not ctx.require("member-count" + lab, len(names) == len(members), f"{names}"):
             continue
+        allowed = {}
         for j, (s, e) in enumerate(members):
             m = hx.indicator(names[j])
             if not level.get("timeframe"):
@@ -168,6 +169,11 @@ def run(ctx, P):
             ctx.equal(f"member{j}==standalone" + lab, project(snap(m.candles), snap(twin.candles)), snap(twin.candles))
             ctx.equal(f"member{j}.as_list==standalone" + lab, m.as_list(), twin.as_list())
             ctx.equal(f"reading_as_list{j}" + lab, hx.reading_as_list(twin.name), twin.as_list())
+            allowed.setdefault(id(m.candles), [m.candles, set()])[1].update(k for c in twin.candles for k in list(c.indicators) + list(c.sub_indicators))
+        # members that share a timeframe share candles - but nothing may be written on a candle list by a member of ANOTHER one
+        for lst, keys in allowed.values():
+            foreign = {k for c in lst for k in list(c.indicators) + list(c.sub_indicators)} - keys
+            ctx.require("only the members of a timeframe write on its candles" + lab, not foreign, f"foreign entries {sorted(foreign)}")
         if not level:
             got = [dict(ts=ctx.sec_of(c.timestamp), open=c.open, high=c.high, low=c.low, close=c.close, volume=c.volume) for c in hx.candles()]
             ctx.equal("base-candles-keep-OHLCV" + lab, got, base)
